@@ -252,12 +252,27 @@ def columns : List (List Node) → List (List Node)
   | [] => []
   | s0 :: rest => (List.range s0.length).map fun j => (s0 :: rest).filterMap (·[j]?)
 
+/-- position-wise test of `bufr_dataset_compressible`: same descriptor, same SKIPPED flag, and for
+data-bearing positions the same encoding, the same replication factor, and equal strings when the
+field is wider than the 62 octets the 6-bit width can describe (63 = all ones reads as none) -/
+def sameShape (a b : Node) : Bool :=
+  a.desc == b.desc && a.flags.skipped == b.flags.skipped &&
+  (a.flags.skipped ||
+    (a.enc.type == b.enc.type && a.enc.nbits == b.enc.nbits && a.enc.scale == b.enc.scale &&
+     a.enc.ref == b.enc.ref && a.enc.afNbits == b.enc.afNbits &&
+     (if isClass31Factor a.desc then a.val.getInt32 == b.val.getInt32
+      else if a.enc.type == .ccitt && decide (a.enc.nbits / 8 > 62) then
+        (match a.val, b.val with
+         | .str s1, .str s2 => !strDiffers s1 s2 (a.enc.nbits / 8).toNat
+         | _, _ => false)
+      else true)))
+
 /-- `bufr_dataset_compressible(dts)` -/
 def compressible (ss : List (List Node)) : Bool :=
   match ss with
   | [] => false
   | [_] => false
-  | s0 :: rest => rest.all (·.length = s0.length)
+  | s0 :: rest => rest.all fun s => s.length = s0.length && (List.zipWith sameShape s0 s).all id
 
 def BUFR_FLAG_OBSERVED : Nat := 128
 def BUFR_FLAG_COMPRESSED : Nat := 64
